@@ -52,7 +52,7 @@ def deletion_family(rng, n, L, alpha, pdel=0.08, psub=0.1):
 
 def gen_alignment_input(rng, cls=None):
     """returns dict(kind, recs, cls)"""
-    cls = cls or rng.choice(["width", "width", "names_long", "names_special", "many_rows", "many_lines", "gapfree", "mixedcase", "bulk"])
+    cls = cls or rng.choice(["width", "width", "names_long", "names_special", "many_rows", "many_lines", "gapfree", "mixedcase", "bulk", "dup_names", "rows_gt_1024"])
     kind = rng.choice(["dna", "protein"])
     alpha = gen.DNA if kind == "dna" else "DEFHIKLMPQRSVWYACGT"
     if cls == "width":
@@ -74,6 +74,19 @@ def gen_alignment_input(rng, cls=None):
         n = rng.choice([100, 300, 520, 600])
         seqs = gen.family(rng, n, rng.randint(20, 70), alpha, "random", 0.15, 0.03, 2)
         names = gen.names(rng, n, "s")
+    elif cls == "rows_gt_1024":
+        # more rows than the 1024-line step of the writers' line buffer, in two or more blocks
+        n = rng.choice([1025, 1100, 1300])
+        seqs = gen.family(rng, n, rng.randint(62, 130), alpha, "random", 0.12, 0.02, 2)
+        names = gen.names(rng, n, "s")
+    elif cls == "dup_names":
+        # names need not be unique for a round trip: rows are identified by position
+        n = rng.randint(3, 14)
+        seqs = gen.family(rng, n, rng.randint(20, 140), alpha, "random", 0.15, 0.04, 3)
+        names = gen.names(rng, n, rng.choice(["s", "rand"]))
+        for _ in range(rng.randint(1, 3)):
+            i, j = rng.sample(range(n), 2)
+            names[j] = names[i]
     elif cls == "many_lines":
         # rows x blocks crosses 1024 / 2048 output lines
         n = rng.choice([18, 30, 40])
